@@ -436,12 +436,36 @@ impl DynTarget for R {
 // ---------------------------------------------------------------------------
 // Poisonable<L> as a top-level target
 
+// the result of the acquisition is kept as it came: a poisoned acquisition
+// stays inside its `PoisonError` (reached through `get_mut` / `get_ref`,
+// released by dropping the error, or by `into_inner` + the unlock function)
+type PRes<G> = Result<G, happylock::poisonable::PoisonError<G>>;
+
+fn pres_mut<G>(r: &mut PRes<G>) -> &mut G {
+	match r {
+		Ok(g) => g,
+		Err(e) => e.get_mut(),
+	}
+}
+fn pres_ref<G>(r: &PRes<G>) -> &G {
+	match r {
+		Ok(g) => g,
+		Err(e) => e.get_ref(),
+	}
+}
+fn pres_into<G>(r: PRes<G>) -> G {
+	match r {
+		Ok(g) => g,
+		Err(e) => e.into_inner(),
+	}
+}
+
 struct PGuard<L: Lockable + RawLock + 'static> {
-	g: PoisonGuard<'static, L::Guard<'static>>,
+	g: PRes<PoisonGuard<'static, L::Guard<'static>>>,
 	was_err: bool,
 }
 struct PRGuard<L: Sharable + RawLock + 'static> {
-	g: PoisonGuard<'static, L::ReadGuard<'static>>,
+	g: PRes<PoisonGuard<'static, L::ReadGuard<'static>>>,
 	was_err: bool,
 }
 
@@ -451,16 +475,16 @@ where
 {
 	fn visit(&mut self, f: &mut Visitor<'_>) {
 		let mut pois = vec![self.was_err];
-		self.g.visit(&mut pois, f)
+		pres_mut(&mut self.g).visit(&mut pois, f)
 	}
 	fn unlock(self: Box<Self>) -> ThreadKey {
-		Poisonable::<L>::unlock(self.g)
+		Poisonable::<L>::unlock(pres_into(self.g))
 	}
 	fn forget(self: Box<Self>) {
 		std::mem::forget(self.g)
 	}
 	fn debug_fmt(&self) -> String {
-		format!("{:?}", self.g)
+		format!("{:?}", pres_ref(&self.g))
 	}
 	fn is_read(&self) -> bool {
 		false
@@ -476,16 +500,16 @@ where
 {
 	fn visit(&mut self, f: &mut Visitor<'_>) {
 		let mut pois = vec![self.was_err];
-		self.g.visit(&mut pois, f)
+		pres_mut(&mut self.g).visit(&mut pois, f)
 	}
 	fn unlock(self: Box<Self>) -> ThreadKey {
-		Poisonable::<L>::unlock_read(self.g)
+		Poisonable::<L>::unlock_read(pres_into(self.g))
 	}
 	fn forget(self: Box<Self>) {
 		std::mem::forget(self.g)
 	}
 	fn debug_fmt(&self) -> String {
-		format!("{:?}", self.g)
+		format!("{:?}", pres_ref(&self.g))
 	}
 	fn is_read(&self) -> bool {
 		true
@@ -524,15 +548,15 @@ macro_rules! pois_target {
 		pois_target!(@impl $inner, {
 			fn read(&'static self, key: ThreadKey) -> Box<dyn DynGuard> {
 				match Poisonable::read(self, key) {
-					Ok(g) => Box::new(PRGuard::<$inner> { g, was_err: false }),
-					Err(e) => Box::new(PRGuard::<$inner> { g: e.into_inner(), was_err: true }),
+					Ok(g) => Box::new(PRGuard::<$inner> { g: Ok(g), was_err: false }),
+					Err(e) => Box::new(PRGuard::<$inner> { g: Err(e), was_err: true }),
 				}
 			}
 			fn try_read(&'static self, key: ThreadKey) -> Result<Box<dyn DynGuard>, ThreadKey> {
 				match Poisonable::try_read(self, key) {
-					Ok(g) => Ok(Box::new(PRGuard::<$inner> { g, was_err: false })),
+					Ok(g) => Ok(Box::new(PRGuard::<$inner> { g: Ok(g), was_err: false })),
 					Err(TryLockPoisonableError::Poisoned(e)) => {
-						Ok(Box::new(PRGuard::<$inner> { g: e.into_inner(), was_err: true }))
+						Ok(Box::new(PRGuard::<$inner> { g: Err(e), was_err: true }))
 					}
 					Err(TryLockPoisonableError::WouldBlock(k)) => Err(k),
 				}
@@ -557,15 +581,15 @@ macro_rules! pois_target {
 		impl DynTarget for Poisonable<$inner> {
 			fn lock(&'static self, key: ThreadKey) -> Box<dyn DynGuard> {
 				match Poisonable::lock(self, key) {
-					Ok(g) => Box::new(PGuard::<$inner> { g, was_err: false }),
-					Err(e) => Box::new(PGuard::<$inner> { g: e.into_inner(), was_err: true }),
+					Ok(g) => Box::new(PGuard::<$inner> { g: Ok(g), was_err: false }),
+					Err(e) => Box::new(PGuard::<$inner> { g: Err(e), was_err: true }),
 				}
 			}
 			fn try_lock(&'static self, key: ThreadKey) -> Result<Box<dyn DynGuard>, ThreadKey> {
 				match Poisonable::try_lock(self, key) {
-					Ok(g) => Ok(Box::new(PGuard::<$inner> { g, was_err: false })),
+					Ok(g) => Ok(Box::new(PGuard::<$inner> { g: Ok(g), was_err: false })),
 					Err(TryLockPoisonableError::Poisoned(e)) => {
-						Ok(Box::new(PGuard::<$inner> { g: e.into_inner(), was_err: true }))
+						Ok(Box::new(PGuard::<$inner> { g: Err(e), was_err: true }))
 					}
 					Err(TryLockPoisonableError::WouldBlock(k)) => Err(k),
 				}
